@@ -22,7 +22,8 @@ from . import core, tlc  # noqa: E402
 def names():
     from . import extras
 
-    return sorted(m.name for m in pkgutil.iter_modules(extras.__path__))
+    # helper modules (no run()) are not extras of their own
+    return sorted(m.name for m in pkgutil.iter_modules(extras.__path__) if m.name not in ("toyactors",))
 
 
 def run_one(name, tier, seed):
